@@ -274,8 +274,8 @@ def definitions(rep):
     pm = parent_map(fi.node)
     rets = returns_of(fi.node)
     shape = [(norm(r.value), [(norm(t), s) for t, s in guards_of(pm, r, fi.node)]) for r in rets]
-    okr = len(rets) == 2 and shape[0][0] == "False" and len(shape[0][1]) == 1 and shape[0][1][0][0].startswith("not nx.is_strongly_connected") \
-        and shape[0][1][0][1] and shape[1] == ("True", [])
+    okr = len(rets) == 2 and shape[0][0] == "False" and len(shape[0][1]) == 1 and shape[0][1][0][0].startswith("nx.is_strongly_connected") \
+        and not shape[0][1][0][1] and shape[1] == ("True", [])
     rep.ob("O19.2", "SHAPE", fi, okr, str(shape), "False exactly when some class is not strongly connected, True otherwise")
     d0 = rep.f(DF, A + "check_deficiency_zero")
     rets = returns_of(d0.node)
